@@ -823,7 +823,7 @@ def r18_from_bytes(text, notes):
     while True:
         mask = mask_text(text)
         hit = None
-        for m in re.finditer(r'::\s*from_be_bytes\s*\(', mask):
+        for m in re.finditer(r'::\s*from_(be|le)_bytes\s*\(', mask):
             par = m.end() - 1
             close = match_close(mask, par)
             inner = mask[par + 1:close]
@@ -838,13 +838,13 @@ def r18_from_bytes(text, notes):
             rest = mask[k:close].strip()
             if rest not in ('', ','):
                 continue
-            hit = (m.start(), par, tail_start, close)
+            hit = (m.start(), par, tail_start, close, m.group(1))
             break
         if not hit:
             return text
-        st, par, tail_start, close = hit
+        st, par, tail_start, close, endian = hit
         expr = text[par + 1:tail_start].strip()
-        text = text[:st] + '::vf_from_be_slice(&%s)' % expr + text[close + 1:]
+        text = text[:st] + '::vf_from_%s_slice(&%s)' % (endian, expr) + text[close + 1:]
         notes.add('R18', '`from_be_bytes(%s.try_into().expect(..))` lowered to vf_from_be_slice' % ' '.join(expr.split()))
 
 
@@ -877,6 +877,16 @@ def r6_db_scans(text, notes):
         else:
             rep = 'vf_db_tw(%s, %s)' % (_mark_iter(recv), c1)
             end = tclose + 1
+        # a following `.map(C).collect()` maps the collected entries
+        mm = re.match(r'\s*\.\s*map\s*\(', mask[end:])
+        if mm:
+            mpar = end + mm.end() - 1
+            mclose = match_close(mask, mpar)
+            mcoll = re.match(r'\s*\.\s*collect\s*(::\s*<\s*Vec\s*<\s*_\s*>\s*>)?\s*\(\s*\)', mask[mclose + 1:])
+            if mcoll:
+                c3 = text[mpar + 1:mclose].strip()
+                rep = '{ let scan__m = %s;\n        vf_vec_map(scan__m, %s) }' % (rep, c3)
+                end = mclose + 1 + mcoll.end()
         text = text[:rs] + rep + text[end:]
         notes.add('R6', 'RocksDB scan `%s.take_while(..)%s` lowered to %s' % (' '.join(recv.split()), '.filter(..)' if mf else '', 'vf_db_tw_filter' if mf else 'vf_db_tw'))
 
